@@ -1,9 +1,541 @@
-import TplModel.Props.C06
+import TplModel.Exp.Eval
+import TplModel.Spec.Walk
+import TplModel.Proofs.AccessProofs
 /-! # C13 — member, index and slice access agree with the Go value
 
-OBLIGATIONS: C06.getValue_absent_cases, C06.getValue_map_found, C06.getValue_map_ne_failed, C06.getValue_absent_cases_nil, C06.getValue_struct_cases, C06.getValue_nilptr_cases, C06.getValue_slice_ne_absent
+"Member access a.name, a['name'], a[i] and slicing a[i:j] / a[i:j:k] return what the corresponding Go
+operation returns on the underlying value: exported struct fields (also through a pointer), map entries by
+string key, array and slice elements with negative indexes counting from the end, and methods bound to their
+receiver. Absent fields or keys, out-of-range indexes or bounds, nil receivers, unexported fields and
+unsupported kinds yield an error - never a zero value and never a panic."
 
-Interim: the lookup facts proved for C06 (maps: found for the first binding / absent otherwise, never failed;
-nil: absent; structs: method, exported field, unexported ⇒ failed, missing ⇒ absent; nil pointers; slices never
-answer `absent`). The comparison with an independent specification of Go's native operations (`Walk`) and the slice
-bounds theorems are task T19; ./check C13 judges the implementation against a typed native walker meanwhile. -/
+Model: `EV.getValue` (exp/reflects.go `getValue`; total, result `found v | absent | failed`; the `.field` and
+`.index` cases of `EV.eval` return `v` for `found v` and record an error (`setErr`) for `absent`/`failed`,
+`.name`/`['name']` pass the name, `[i]` passes `toString i` = `EV.indexName`), `EV.sliceOf` (the `.slice` case
+of `eval` on evaluated bounds, `TplModel/Proofs/AccessProofs.lean`).  Specification: `TplModel/Spec/Walk.lean`.
+All statements hold for EVERY value of the universe `EV.Val` and every name / integer.
+
+`getValue` and `sliceOf` are total functions: "never a panic" for member and index access is the fact that
+`getValue` has no `panic` outcome (the reflect panic on an unexported field is the outcome `failed`);
+for slicing, `sliceOf … = panic` stands for the reflect panic that `Evaluate` recovers into an error, and
+`slice_spec` says it happens exactly when Go's own slice expression panics. -/
+namespace C13
+open EV
+open Walk (Field)
+
+/-! ## the harness type family (harness/values.go: `vS`, `vIn`, `vPtrS`, `vNilPtrS`) -/
+
+def inV : Val := .struct "In" [("Z", true, false, .int .int 9)]
+def nilP : Val := .ptr "S" 0 none
+def lV : Val := .slice "[]int" [.int .int 1, .int .int 2] 2
+def mV : Val := .map "map[string]interface {}" [("x", .int .int 1)]
+/-- `S{A: a, B: b, c: 2, P: p, L: []int{1,2}, M: map[string]any{"x":1}, In: In{9}}` -/
+def sV (a : Int) (b : String) (p : Val) : Val :=
+  .struct "S" [("A", true, false, .int .int a), ("B", true, false, .str b), ("c", false, false, .int .int 2),
+    ("P", true, false, p), ("L", true, false, lV), ("M", true, false, mV), ("In", true, true, inV)]
+def s1 : Val := sV 7 "b" nilP
+def p1 : Val := .ptr "S" 1 (some s1)
+def s2 : Val := sV 8 "c" p1
+def arr3 : Val := .array "[3]int" [.int .int 10, .int .int 20, .int .int 30]
+/-- a slice of length 2 and capacity 4 -/
+def cap4 : Val := .slice "[]int" [.int .int 10, .int .int 20] 4
+/-- the later binding of a key is shadowed -/
+def dupM : Val := .map "map[string]interface {}" [("k", .int .int 1), ("z", .nil), ("k", .int .int 2)]
+
+/-! ## struct fields -/
+
+/-- a struct operand, `n` not a method: the evaluator follows Go's selector resolution -/
+theorem getValue_struct_resolve (n ty : String) (fs : List Field) (hm : n ∉ methodsOf ty false) :
+    getValue n (.struct ty fs) =
+      match Walk.resolve fs n with
+      | some (true, v) => .found v
+      | some (false, _) => .failed
+      | none => .absent := by
+  rw [getValue_eq_afterMethods n _ (by simpa [NoMethod] using hm), afterMethods_struct]
+  cases Walk.resolve fs n with
+  | none => rfl
+  | some r => obtain ⟨ex, y⟩ := r; cases ex <;> rfl
+
+/-- `found v` iff Go's `x.n` is the EXPORTED field (declared or promoted through an embedded struct) with value
+    `v`; `failed` iff the field exists but is unexported; `absent` iff there is no such field -/
+theorem getValue_struct_field (n ty : String) (fs : List Field) (hm : n ∉ methodsOf ty false) :
+    (∀ v, getValue n (.struct ty fs) = .found v ↔ Walk.field (.struct ty fs) n = some v) ∧
+    (getValue n (.struct ty fs) = .failed ↔ ∃ v, Walk.resolve fs n = some (false, v)) ∧
+    (getValue n (.struct ty fs) = .absent ↔ Walk.resolve fs n = none) := by
+  rw [getValue_struct_resolve n ty fs hm]
+  simp only [Walk.field, hm, if_false, Walk.member, Walk.structField]
+  cases Walk.resolve fs n with
+  | none => simp
+  | some r => obtain ⟨ex, y⟩ := r; cases ex <;> simp
+
+/-- a method of the struct's method set is returned bound to the operand (and wins over a field) -/
+theorem getValue_struct_method (n ty : String) (fs : List Field) (hm : n ∈ methodsOf ty false) :
+    getValue n (.struct ty fs) = .found (.meth ty n (.struct ty fs)) ∧
+    Walk.field (.struct ty fs) n = some (.meth ty n (.struct ty fs)) := by
+  rw [getValue_struct_eq, if_pos (by simpa using hm)]
+  simp [Walk.field, hm]
+
+example : "A" ∉ methodsOf "S" false ∧ "Z" ∉ methodsOf "S" false ∧ "c" ∉ methodsOf "S" false := by decide
+example : getValue "A" s1 = .found (.int .int 7) ∧ Walk.field s1 "A" = some (.int .int 7) := ⟨rfl, rfl⟩
+/-- promoted through the embedded `In` -/
+example : getValue "Z" s1 = .found (.int .int 9) ∧ Walk.field s1 "Z" = some (.int .int 9) := ⟨rfl, rfl⟩
+/-- unexported -/
+example : getValue "c" s1 = .failed ∧ Walk.field s1 "c" = none := ⟨rfl, rfl⟩
+/-- absent -/
+example : getValue "Q" s1 = .absent ∧ Walk.field s1 "Q" = none := ⟨rfl, rfl⟩
+example : "Get" ∈ methodsOf "S" false := by decide
+example : getValue "Get" s1 = .found (.meth "S" "Get" s1) := rfl
+
+/-! ## pointers -/
+
+/-- through a non-nil pointer the access is the access on the pointee (`n` not in the pointer's method set;
+    the pointee is not itself a pointer and has no method called `n`) -/
+theorem getValue_through_pointer (n ty : String) (id : Nat) (t : Val)
+    (hm : n ∉ methodsOf ty true) (ht : NoMethod n t) :
+    getValue n (.ptr ty id (some t)) = getValue n t := by
+  rw [getValue_ptr_eq, if_neg (by simpa using hm), getValue_eq_afterMethods n t ht]
+
+/-- the well-typed case `*T → T`: one hypothesis suffices, the method set of `*T` contains that of `T` -/
+theorem getValue_through_pointer_struct (n ty : String) (id : Nat) (fs : List Field)
+    (hm : n ∉ methodsOf ty true) :
+    getValue n (.ptr ty id (some (.struct ty fs))) = getValue n (.struct ty fs) :=
+  getValue_through_pointer n ty id _ hm (fun h => hm (methodsOf_value_sub_ptr ty n h))
+
+/-- nil receiver: an error, never a zero value -/
+theorem getValue_nil_pointer (n ty : String) (id : Nat) (hm : n ∉ methodsOf ty true) :
+    getValue n (.ptr ty id none) = .absent := by
+  rw [getValue_ptr_eq, if_neg (by simpa using hm)]; rfl
+
+/-- a method of the pointer's method set is returned bound to the pointer (nil or not) -/
+theorem getValue_pointer_method (n ty : String) (id : Nat) (t : Option Val) (hm : n ∈ methodsOf ty true) :
+    getValue n (.ptr ty id t) = .found (.meth ty n (.ptr ty id t)) ∧
+    Walk.field (.ptr ty id t) n = some (.meth ty n (.ptr ty id t)) := by
+  rw [getValue_ptr_eq, if_pos (by simpa using hm)]
+  simp [Walk.field, hm]
+
+/-- a pointer to a pointer is not followed (reflect's `Elem()` is applied once) -/
+theorem getValue_pointer_pointer (n ty ty' : String) (id id' : Nat) (t : Option Val)
+    (hm : n ∉ methodsOf ty true) :
+    getValue n (.ptr ty id (some (.ptr ty' id' t))) = .absent := by
+  rw [getValue_ptr_eq, if_neg (by simpa using hm)]; rfl
+
+example : "Z" ∉ methodsOf "S" true ∧ NoMethod "Z" s1 := by decide
+example : getValue "Z" p1 = getValue "Z" s1 ∧ getValue "Z" p1 = .found (.int .int 9) := ⟨rfl, rfl⟩
+example : getValue "A" nilP = .absent ∧ Walk.field nilP "A" = none := ⟨rfl, rfl⟩
+example : "Ptr" ∈ methodsOf "S" true ∧ "Ptr" ∉ methodsOf "S" false := by decide
+example : getValue "Ptr" p1 = .found (.meth "S" "Ptr" p1) := rfl
+/-- `s2.P.In.Z`, three accesses deep -/
+example : (match getValue "P" s2 with
+    | .found p => (match getValue "In" p with | .found i => getValue "Z" i | r => r)
+    | r => r) = .found (.int .int 9) := rfl
+
+/-! ## maps -/
+
+theorem getValue_map_entry (n ty : String) (kvs : List (String × Val)) :
+    getValue n (.map ty kvs) =
+      match Walk.mapEntry kvs n with
+      | some v => .found v
+      | none => .absent := by
+  rw [getValue_map_eq, afterMethods_map]
+  cases Walk.mapEntry kvs n <;> rfl
+
+/-- `found v` for the first binding of key `n`, `absent` when no binding has that key, never `failed` -/
+theorem getValue_map (n ty : String) (kvs : List (String × Val)) :
+    (∀ v, getValue n (.map ty kvs) = .found v ↔
+        ∃ pre post, kvs = pre ++ (n, v) :: post ∧ ∀ kv ∈ pre, kv.1 ≠ n) ∧
+    (getValue n (.map ty kvs) = .absent ↔ ∀ kv ∈ kvs, kv.1 ≠ n) ∧
+    getValue n (.map ty kvs) ≠ .failed ∧
+    (∀ v, getValue n (.map ty kvs) = .found v ↔ Walk.field (.map ty kvs) n = some v) := by
+  rw [getValue_map_entry]
+  refine ⟨fun v => ?_, ?_, ?_, fun v => ?_⟩
+  · rw [← mapEntry_eq_some_iff]; cases Walk.mapEntry kvs n <;> simp
+  · rw [← mapEntry_eq_none_iff]; cases Walk.mapEntry kvs n <;> simp
+  · cases Walk.mapEntry kvs n <;> simp
+  · simp only [Walk.field, Walk.member]; cases Walk.mapEntry kvs n <;> simp
+
+example : getValue "k" dupM = .found (.int .int 1) := rfl
+/-- a stored nil is found as such; a missing key is an error, not nil -/
+example : getValue "z" dupM = .found .nil ∧ getValue "q" dupM = .absent := ⟨rfl, rfl⟩
+example : ∃ pre post, [("k", Val.int .int 1), ("z", .nil), ("k", .int .int 2)] = pre ++ ("k", .int .int 1) :: post
+    ∧ ∀ kv ∈ pre, kv.1 ≠ "k" := ⟨[], _, rfl, by simp⟩
+
+/-! ## slices and arrays: `a[i]` -/
+
+/-- `a[i]` passes the decimal rendering of `i`; `parseDecInt` reads it back on the whole int64 range -/
+theorem parseDecInt_toString (i : Int) (h : -2 ^ 63 ≤ i ∧ i < 2 ^ 63) : parseDecInt (toString i) = some i :=
+  EV.parseDecInt_toString i h
+
+/-- agreement with the specification, for every integer `i`.  The hypothesis is a disjunction of two facts
+    that are both invariants of the Go program and of which one is enough: the operand's length fits an `int`
+    (true of every Go slice and array), or the index is an int64 (true of everything `IsInt` hands to the
+    `.index` case).  Without either the statement is false in the value universe (a list of ≥ 2^63 elements
+    indexed by 2^63: `parseDecInt` rejects the name as `strconv.ParseInt` does). -/
+theorem getValue_index_walk (v : Val) (xs : List Val) (hv : Walk.elems v = some xs) (i : Int)
+    (h : xs.length < 2 ^ 63 ∨ IsInt64 i) :
+    getValue (toString i) v =
+      match Walk.indexFromEnd v i with
+      | some x => .found x
+      | none => .failed := by
+  have hnm : NoMethod (toString i) v := by cases v <;> simp [Walk.elems] at hv <;> trivial
+  have hel : Walk.elemsOf v = some xs := by
+    cases v <;> simp [Walk.elems] at hv <;> simpa [Walk.elemsOf, Walk.elems] using hv
+  rw [getValue_eq_afterMethods _ v hnm, afterMethods_elems _ v xs hv, Walk.indexFromEnd, hel, Option.bind_some]
+  by_cases hi : IsInt64 i
+  · rw [EV.parseDecInt_toString i hi]
+    dsimp only
+    cases Walk.elemFromEnd xs i <;> rfl
+  · rw [parseDecInt_toString_none i hi]
+    have hl : xs.length < 2 ^ 63 := by rcases h with h | h; exact h; exact absurd h hi
+    have : Walk.elemFromEnd xs i = none := by
+      rw [Walk.elemFromEnd, elem_eq_none_iff]
+      unfold IsInt64 at hi
+      have hl' : (xs.length : Int) < 2 ^ 63 := by exact_mod_cast hl
+      split <;> omega
+    rw [this]
+
+/-- `found xs[i]` if `0 ≤ i < len`, `found xs[len+i]` if `-len ≤ i < 0`, `failed` otherwise -/
+theorem getValue_index (v : Val) (xs : List Val) (hv : Walk.elems v = some xs) (i : Int)
+    (h : xs.length < 2 ^ 63 ∨ IsInt64 i) :
+    getValue (toString i) v =
+      if h1 : 0 ≤ i ∧ i < xs.length then .found (xs[i.toNat]'(by omega))
+      else if h2 : -(xs.length : Int) ≤ i ∧ i < 0 then .found (xs[((xs.length : Int) + i).toNat]'(by omega))
+      else .failed := by
+  have hel : Walk.elemsOf v = some xs := by
+    cases v <;> simp [Walk.elems] at hv <;> simpa [Walk.elemsOf, Walk.elems] using hv
+  rw [getValue_index_walk v xs hv i h, Walk.indexFromEnd, hel, Option.bind_some]
+  simp only [Walk.elemFromEnd, elem_eq_getElem?]
+  by_cases h1 : 0 ≤ i ∧ i < xs.length
+  · have hn : ¬ i < 0 := by omega
+    rw [dif_pos h1]
+    simp only [hn, if_false, h1.1, if_true]
+    rw [List.getElem?_eq_getElem (by omega)]
+  · rw [dif_neg h1]
+    by_cases h2 : -(xs.length : Int) ≤ i ∧ i < 0
+    · rw [dif_pos h2]
+      have hp : 0 ≤ (xs.length : Int) + i := by omega
+      simp only [h2.2, if_true, hp]
+      rw [List.getElem?_eq_getElem (by omega)]
+    · rw [dif_neg h2]
+      by_cases hn : i < 0
+      · have hp : ¬ 0 ≤ (xs.length : Int) + i := by omega
+        simp only [hn, if_true, hp, if_false]
+      · have hp : 0 ≤ i := by omega
+        simp only [hn, if_false, hp, if_true]
+        rw [List.getElem?_eq_none (by omega)]
+
+/-- a name that is not a decimal int64 is rejected on a slice or array -/
+theorem getValue_index_nonnumeric (v : Val) (xs : List Val) (hv : Walk.elems v = some xs) (n : String)
+    (hn : parseDecInt n = none) : getValue n v = .failed := by
+  have hnm : NoMethod n v := by cases v <;> simp [Walk.elems] at hv <;> trivial
+  rw [getValue_eq_afterMethods _ v hnm, afterMethods_elems _ v xs hv, hn]
+
+example : Walk.elems arr3 = some [.int .int 10, .int .int 20, .int .int 30] := rfl
+example : getValue (toString (1 : Int)) arr3 = .found (.int .int 20) := by rfl
+example : getValue (toString (-1 : Int)) arr3 = .found (.int .int 30) := by rfl
+example : getValue (toString (-3 : Int)) arr3 = .found (.int .int 10) := by rfl
+example : getValue (toString (3 : Int)) arr3 = .failed ∧ getValue (toString (-4 : Int)) arr3 = .failed := ⟨rfl, rfl⟩
+example : getValue (toString (-1 : Int)) lV = .found (.int .int 2) ∧ Walk.indexFromEnd lV (-1) = some (.int .int 2) :=
+  ⟨rfl, rfl⟩
+example : parseDecInt "x" = none ∧ getValue "x" lV = .failed := ⟨rfl, rfl⟩
+example : IsInt64 (-1) ∧ ([Val.nil].length < 2 ^ 63) := by decide
+example : parseDecInt (toString (-9223372036854775808 : Int)) = some (-9223372036854775808) := by rfl
+example : parseDecInt (toString (9223372036854775808 : Int)) = none := by rfl
+
+/-! ## slicing: `a[lo:hi]`, `a[lo:hi:max]` -/
+
+/-- `sliceOf` and `Walk.slice` unfolded on a sliceable operand -/
+private theorem slice_cases (v : Val) (lo hi mx : Option Int) :
+    (Walk.sliceable v = none ∧ sliceOf v lo hi mx = .notSliceable ∧ Walk.slice v lo hi mx = none ∧
+      ¬ Walk.slicePanics v lo hi mx) ∨
+    ∃ ty xs c, Walk.sliceable v = some (ty, xs, c) ∧
+      (Walk.slicePanics v lo hi mx ↔ ¬ Walk.InRange (lo.getD 0) (hi.getD xs.length) mx c) ∧
+      sliceOf v lo hi mx =
+        (if Walk.InRange (lo.getD 0) (hi.getD xs.length) mx c then
+          if hi.getD xs.length ≤ xs.length then
+            .ok (.slice ty (Walk.segment xs (lo.getD 0).toNat (hi.getD xs.length).toNat)
+                  ((mx.getD c).toNat - (lo.getD 0).toNat))
+          else .unsupported
+        else .panic) ∧
+      Walk.slice v lo hi mx =
+        (if Walk.WellFormed hi mx ∧ Walk.InRange (lo.getD 0) (hi.getD xs.length) mx c ∧
+            hi.getD xs.length ≤ xs.length then
+          some (.slice ty (Walk.segment xs (lo.getD 0).toNat (hi.getD xs.length).toNat)
+                  ((mx.getD c).toNat - (lo.getD 0).toNat))
+        else none) := by
+  cases hs : Walk.sliceable v with
+  | none =>
+    refine Or.inl ⟨rfl, ?_, ?_, ?_⟩
+    · rw [sliceOf_eq, hs]
+    · rw [Walk.slice, hs]
+    · rw [Walk.slicePanics, hs]; exact not_false
+  | some r =>
+    obtain ⟨ty, xs, c⟩ := r
+    refine Or.inr ⟨ty, xs, c, rfl, ?_, ?_, ?_⟩
+    · rw [Walk.slicePanics, hs]
+    · rw [sliceOf_eq, hs]
+    · rw [Walk.slice, hs]
+
+/-- whenever Go's slice expression is defined on the value universe, the evaluator returns its value -/
+theorem slice_spec_agrees (v : Val) (lo hi mx : Option Int) (r : Val)
+    (h : Walk.slice v lo hi mx = some r) : sliceOf v lo hi mx = .ok r := by
+  rcases slice_cases v lo hi mx with ⟨_, _, hw, _⟩ | ⟨ty, xs, c, _, _, hso, hw⟩
+  · rw [hw] at h; cases h
+  · rw [hw] at h
+    split at h
+    · next hc => cases h; rw [hso, if_pos hc.2.1, if_pos hc.2.2]
+    · cases h
+
+/-- … and conversely, for a well-formed slice expression (in `a[lo:hi:max]` only `lo` may be omitted) -/
+theorem slice_spec_ok_iff (v : Val) (lo hi mx : Option Int) (r : Val) (hwf : Walk.WellFormed hi mx) :
+    sliceOf v lo hi mx = .ok r ↔ Walk.slice v lo hi mx = some r := by
+  refine ⟨fun h => ?_, slice_spec_agrees v lo hi mx r⟩
+  rcases slice_cases v lo hi mx with ⟨_, hso, _, _⟩ | ⟨ty, xs, c, _, _, hso, hw⟩
+  · rw [hso] at h; cases h
+  · rw [hso] at h
+    split at h
+    · next h1 =>
+      split at h
+      · next h2 => cases h; rw [hw, if_pos ⟨hwf, h1, h2⟩]
+      · cases h
+    · cases h
+
+/-- the evaluator's slice panics (recovered by `Evaluate` into an error) exactly when Go's slice expression
+    panics: `0 ≤ lo ≤ hi ≤ cap` resp. `0 ≤ lo ≤ hi ≤ max ≤ cap` is violated -/
+theorem slice_spec_panic_iff (v : Val) (lo hi mx : Option Int) :
+    sliceOf v lo hi mx = .panic ↔ Walk.slicePanics v lo hi mx := by
+  rcases slice_cases v lo hi mx with ⟨_, hso, _, hp⟩ | ⟨ty, xs, c, _, hp, hso, _⟩
+  · rw [hso]; constructor
+    · intro h; cases h
+    · intro h; exact absurd h hp
+  · rw [hso, hp]
+    constructor
+    · intro h
+      split at h
+      · split at h <;> cases h
+      · assumption
+    · intro h; rw [if_neg h]
+
+/-- outside the model: indices in range, `hi` beyond the length but within the capacity (the result would show
+    elements of the backing array that the value universe does not record) -/
+theorem slice_spec_unsupported_iff (v : Val) (lo hi mx : Option Int) :
+    sliceOf v lo hi mx = .unsupported ↔
+      ∃ ty xs c, Walk.sliceable v = some (ty, xs, c) ∧
+        Walk.InRange (lo.getD 0) (hi.getD xs.length) mx c ∧ (xs.length : Int) < hi.getD xs.length := by
+  rcases slice_cases v lo hi mx with ⟨hs, hso, _, _⟩ | ⟨ty, xs, c, hs, _, hso, _⟩
+  · rw [hso, hs]; constructor
+    · intro h; cases h
+    · rintro ⟨_, _, _, h, _⟩; cases h
+  · rw [hso, hs]
+    constructor
+    · intro h
+      split at h
+      · next h1 =>
+        split at h
+        · cases h
+        · next h2 => exact ⟨ty, xs, c, rfl, h1, by omega⟩
+      · cases h
+    · rintro ⟨ty', xs', c', he, h1, h2⟩
+      cases he
+      rw [if_pos h1, if_neg (by omega)]
+
+/-- an operand that is neither a slice nor an array: `setErr` -/
+theorem slice_spec_notSliceable_iff (v : Val) (lo hi mx : Option Int) :
+    sliceOf v lo hi mx = .notSliceable ↔ Walk.sliceable v = none := by
+  rcases slice_cases v lo hi mx with ⟨hs, hso, _, _⟩ | ⟨ty, xs, c, hs, _, hso, _⟩
+  · rw [hso, hs]; exact ⟨fun _ => rfl, fun _ => rfl⟩
+  · rw [hso, hs]
+    constructor
+    · intro h
+      split at h
+      · split at h <;> cases h
+      · cases h
+    · intro h; cases h
+
+/-- C13 for slicing, in one statement -/
+theorem slice_spec (v : Val) (lo hi mx : Option Int) :
+    (∀ r, Walk.slice v lo hi mx = some r → sliceOf v lo hi mx = .ok r) ∧
+    (Walk.WellFormed hi mx → ∀ r, sliceOf v lo hi mx = .ok r → Walk.slice v lo hi mx = some r) ∧
+    (sliceOf v lo hi mx = .panic ↔ Walk.slicePanics v lo hi mx) ∧
+    (sliceOf v lo hi mx = .notSliceable ↔ Walk.sliceable v = none) :=
+  ⟨fun r => slice_spec_agrees v lo hi mx r,
+   fun hwf r => (slice_spec_ok_iff v lo hi mx r hwf).mp,
+   slice_spec_panic_iff v lo hi mx, slice_spec_notSliceable_iff v lo hi mx⟩
+
+/-- what the result of a defined slice expression consists of: the elements `lo … hi-1` of the operand, with
+    capacity `cap - lo` resp. `max - lo` -/
+theorem slice_elements (v : Val) (lo hi mx : Option Int) (r : Val) (h : Walk.slice v lo hi mx = some r) :
+    ∃ ty xs c ys, Walk.sliceable v = some (ty, xs, c) ∧
+      r = .slice ty ys ((mx.getD c).toNat - (lo.getD 0).toNat) ∧
+      ys.length = (hi.getD xs.length).toNat - (lo.getD 0).toNat ∧
+      ∀ k, k < ys.length → ys[k]? = xs[(lo.getD 0).toNat + k]? := by
+  rcases slice_cases v lo hi mx with ⟨_, _, hw, _⟩ | ⟨ty, xs, c, hs, _, _, hw⟩
+  · rw [hw] at h; cases h
+  · rw [hw] at h
+    split at h
+    · next hc =>
+      cases h
+      have hle : (hi.getD xs.length).toNat ≤ xs.length := by omega
+      refine ⟨ty, xs, c, _, hs, rfl, segment_length xs _ _ hle, fun k hk => ?_⟩
+      rw [segment_length xs _ _ hle] at hk
+      rw [segment_getElem?, if_pos (by omega)]
+    · cases h
+
+example : sliceOf arr3 (some 1) (some 2) none = .ok (.slice "[]int" [.int .int 20] 2)
+    ∧ Walk.slice arr3 (some 1) (some 2) none = some (.slice "[]int" [.int .int 20] 2) := ⟨rfl, rfl⟩
+example : sliceOf arr3 none none none = .ok (.slice "[]int" [.int .int 10, .int .int 20, .int .int 30] 3) := rfl
+example : sliceOf cap4 (some 1) (some 2) (some 3) = .ok (.slice "[]int" [.int .int 20] 2)
+    ∧ Walk.slice cap4 (some 1) (some 2) (some 3) = some (.slice "[]int" [.int .int 20] 2) := ⟨rfl, rfl⟩
+example : Walk.WellFormed (some 2) (some 3) ∧ ¬ Walk.WellFormed none (some 3) := by decide
+/-- `hi` beyond the capacity, `lo > hi`, negative `lo`, `max > cap`: Go panics, and so does the evaluator -/
+example : Walk.slicePanics arr3 (some 1) (some 4) none ∧ sliceOf arr3 (some 1) (some 4) none = .panic :=
+  ⟨by decide, rfl⟩
+example : Walk.slicePanics lV (some 2) (some 1) none ∧ sliceOf lV (some 2) (some 1) none = .panic := ⟨by decide, rfl⟩
+example : Walk.slicePanics lV (some (-1)) none none ∧ sliceOf lV (some (-1)) none none = .panic := ⟨by decide, rfl⟩
+example : Walk.slicePanics cap4 none (some 1) (some 5) ∧ sliceOf cap4 none (some 1) (some 5) = .panic :=
+  ⟨by decide, rfl⟩
+/-- within the capacity but beyond the length -/
+example : sliceOf cap4 none (some 3) none = .unsupported ∧ ¬ Walk.slicePanics cap4 none (some 3) none :=
+  ⟨rfl, by decide⟩
+example : sliceOf mV none none none = .notSliceable ∧ Walk.sliceable mV = none := ⟨rfl, rfl⟩
+
+/-! ## unsupported kinds -/
+
+/-- anything that is not a struct, pointer, map, slice or array has no members -/
+theorem getValue_unsupported_kind (n : String) (v : Val)
+    (h0 : ∀ ty id t, v ≠ .ptr ty id t)
+    (h1 : ∀ ty fs, v ≠ .struct ty fs) (h2 : ∀ ty kvs, v ≠ .map ty kvs)
+    (h3 : ∀ ty xs c, v ≠ .slice ty xs c) (h4 : ∀ ty xs, v ≠ .array ty xs) :
+    getValue n v = .absent := by
+  have hnm : NoMethod n v := by
+    cases v with
+    | struct ty fs => exact absurd rfl (h1 ty fs)
+    | ptr ty id t => exact absurd rfl (h0 ty id t)
+    | _ => trivial
+  rw [getValue_eq_afterMethods n v hnm, afterMethods_unsupported n v h1 h2 h3 h4]
+
+example : getValue "A" (.int .int 3) = .absent ∧ getValue "0" (.str "ab") = .absent
+    ∧ getValue "x" .nil = .absent ∧ getValue "x" (.func "f") = .absent := ⟨rfl, rfl, rfl, rfl⟩
+
+/-! ## never a zero value -/
+
+/-- whatever `getValue` finds is literally stored in the operand (a field value, also of an embedded struct; a
+    map entry's value; an element; possibly behind one pointer) or is the method `n` bound to the operand.
+    No value is ever made up: a missing member is never answered with nil or a zero value. -/
+theorem access_never_zero_value (n : String) (v x : Val) (h : getValue n v = .found x) :
+    Walk.Stored x v ∨ ∃ ty, x = .meth ty n v := by
+  cases v with
+  | struct ty fs =>
+    rw [getValue_struct_eq] at h
+    split at h
+    · simp only [Look.found.injEq] at h; exact Or.inr ⟨ty, h.symm⟩
+    · exact Or.inl (afterMethods_stored n _ x h)
+  | ptr ty id t =>
+    rw [getValue_ptr_eq] at h
+    split at h
+    · simp only [Look.found.injEq] at h; exact Or.inr ⟨ty, h.symm⟩
+    · cases t with
+      | none => cases h
+      | some t => exact Or.inl (Walk.Stored.deref (afterMethods_stored n t x h))
+  | nil => cases h
+  | map ty kvs => exact Or.inl (afterMethods_stored n _ x h)
+  | slice ty xs c => exact Or.inl (afterMethods_stored n _ x h)
+  | array ty xs => exact Or.inl (afterMethods_stored n _ x h)
+  | bool _ => cases h
+  | int _ _ => cases h
+  | f64 _ => cases h
+  | f32 _ => cases h
+  | str _ => cases h
+  | func _ => cases h
+  | meth _ _ _ => cases h
+
+/-- `Stored` is not vacuous: nothing is stored in an empty container or behind a nil pointer … -/
+theorem not_stored_empty (x : Val) (ty : String) (id c : Nat) :
+    ¬ Walk.Stored x (.struct ty []) ∧ ¬ Walk.Stored x (.map ty []) ∧ ¬ Walk.Stored x (.slice ty [] c)
+    ∧ ¬ Walk.Stored x (.array ty []) ∧ ¬ Walk.Stored x (.ptr ty id none) ∧ ¬ Walk.Stored x .nil := by
+  refine ⟨?_, ?_, ?_, ?_, ?_, ?_⟩ <;> intro h <;> cases h <;> simp_all
+
+/-- … so all a nil receiver can yield is a bound method -/
+theorem nil_receiver_only_methods (n ty : String) (id : Nat) (x : Val)
+    (h : getValue n (.ptr ty id none) = .found x) : ∃ ty', x = .meth ty' n (.ptr ty id none) := by
+  rcases access_never_zero_value n _ x h with hs | hm
+  · exact absurd hs (not_stored_empty x ty id 0).2.2.2.2.1
+  · exact hm
+
+example : getValue "Z" s1 = .found (.int .int 9) ∧ Walk.Stored (.int .int 9) s1 :=
+  ⟨rfl, Walk.Stored.promoted (ty := "S") "In" true "In" [("Z", true, false, .int .int 9)]
+    (by repeat (first | exact List.mem_cons_self | apply List.mem_cons_of_mem))
+    (Walk.Stored.field "Z" true false List.mem_cons_self)⟩
+
+/-! ## the whole of `getValue` against the specification -/
+
+/-- `getValue n v` finds `x` iff Go's member access `v.n` / `v["n"]` yields `x`, or `n` is a decimal int64 `i`
+    and the template language's `v[i]` (negative `i` from the end) yields `x`.  Hence, when neither is
+    defined — absent field or key, unexported field, index out of range, nil receiver, unsupported kind —
+    the result is `absent` or `failed`, which the evaluator reports as an error. -/
+theorem access_matches_walk (n : String) (v x : Val) :
+    getValue n v = .found x ↔
+      Walk.field v n = some x ∨ ∃ i, parseDecInt n = some i ∧ Walk.indexFromEnd v i = some x := by
+  have core : ∀ t : Val, (afterMethods n (some t) = .found x ↔
+      Walk.member t n = some x ∨
+      ∃ i, parseDecInt n = some i ∧ (Walk.elems t).bind (Walk.elemFromEnd · i) = some x) := by
+    intro t
+    rw [afterMethods_found_iff]
+    constructor
+    · rintro (h | ⟨xs, i, hxs, hp, hx⟩)
+      · exact Or.inl h
+      · exact Or.inr ⟨i, hp, by rw [hxs]; exact hx⟩
+    · rintro (h | ⟨i, hp, hx⟩)
+      · exact Or.inl h
+      · cases hxs : Walk.elems t with
+        | none => rw [hxs] at hx; cases hx
+        | some xs => rw [hxs] at hx; exact Or.inr ⟨xs, i, rfl, hp, hx⟩
+  have plain : ∀ t : Val, NoMethod n t → Walk.field t n = Walk.member t n → Walk.elemsOf t = Walk.elems t →
+      (getValue n t = .found x ↔
+        Walk.field t n = some x ∨ ∃ i, parseDecInt n = some i ∧ Walk.indexFromEnd t i = some x) := by
+    intro t hnm hf he
+    rw [getValue_eq_afterMethods n t hnm, core, hf]
+    simp only [Walk.indexFromEnd, he]
+  cases v with
+  | struct ty fs =>
+    by_cases hm : n ∈ methodsOf ty false
+    · rw [(getValue_struct_method n ty fs hm).1, (getValue_struct_method n ty fs hm).2]
+      simp [Walk.indexFromEnd, Walk.elemsOf, Walk.elems, eq_comm]
+    · exact plain _ (by simpa [NoMethod] using hm) (by simp [Walk.field, hm]) rfl
+  | ptr ty id t =>
+    by_cases hm : n ∈ methodsOf ty true
+    · rw [(getValue_pointer_method n ty id t hm).1, (getValue_pointer_method n ty id t hm).2,
+        method_not_numeric ty true n hm]
+      simp [eq_comm]
+    · rw [getValue_ptr_eq, if_neg (by simpa using hm)]
+      cases t with
+      | none => simp [afterMethods, Walk.field, hm, Walk.indexFromEnd, Walk.elemsOf]
+      | some t =>
+        rw [core]
+        simp only [Walk.field, hm, if_false, Walk.indexFromEnd, Walk.elemsOf]
+  | nil => exact plain _ trivial rfl rfl
+  | map ty kvs => exact plain _ trivial rfl rfl
+  | slice ty xs c => exact plain _ trivial rfl rfl
+  | array ty xs => exact plain _ trivial rfl rfl
+  | bool _ => exact plain _ trivial rfl rfl
+  | int _ _ => exact plain _ trivial rfl rfl
+  | f64 _ => exact plain _ trivial rfl rfl
+  | f32 _ => exact plain _ trivial rfl rfl
+  | str _ => exact plain _ trivial rfl rfl
+  | func _ => exact plain _ trivial rfl rfl
+  | meth _ _ _ => exact plain _ trivial rfl rfl
+
+/-- the error side of C13: when Go's access is not defined, the evaluator's lookup fails -/
+theorem invalid_access_is_error (n : String) (v : Val)
+    (hf : Walk.field v n = none) (hi : ∀ i, parseDecInt n = some i → Walk.indexFromEnd v i = none) :
+    getValue n v = .absent ∨ getValue n v = .failed := by
+  cases h : getValue n v with
+  | absent => exact Or.inl rfl
+  | failed => exact Or.inr rfl
+  | found x =>
+    rcases (access_matches_walk n v x).mp h with h1 | ⟨i, hp, hx⟩
+    · rw [hf] at h1; cases h1
+    · rw [hi i hp] at hx; cases hx
+
+example : Walk.field s1 "c" = none ∧ parseDecInt "c" = none ∧ getValue "c" s1 = .failed := ⟨rfl, rfl, rfl⟩
+
+end C13
